@@ -1195,9 +1195,9 @@ where
 
         let guard = self.ptr_guard();
         let mut ptr = guard.as_ptr() as *const Packed<T>;
-        let start = ptr;
+        let total = buf.len().min(self.len());
 
-        for v in buf.iter_mut().take(self.len()) {
+        for v in buf.iter_mut().take(total) {
             // SAFETY: read_volatile is safe because the pointers are range-checked when
             // the slices are created, and they never escape the VolatileSlices.
             // ptr::add is safe because get_array_ref() validated that
@@ -1208,8 +1208,8 @@ where
             }
         }
 
-        // SAFETY: It is guaranteed that start and ptr point to the regions of the same slice.
-        unsafe { ptr.offset_from(start) as usize }
+        // The number of elements copied (`ptr.offset_from(start)` would panic for zero-sized `T`).
+        total
     }
 
     /// Copies as many bytes as possible from this slice to the provided `slice`.
